@@ -229,40 +229,6 @@ func (p *Pat) nullable() bool {
 	return false
 }
 
-// maxWidth is the largest number of rows one word of p can span (capped at 99).
-func (p *Pat) maxWidth() int {
-	w := 0
-	switch p.K {
-	case "lit":
-		return 1
-	case "grp":
-		return p.C[0].maxWidth()
-	case "seq", "perm":
-		for i := range p.C {
-			w += p.C[i].maxWidth()
-		}
-	case "alt":
-		for i := range p.C {
-			if x := p.C[i].maxWidth(); x > w {
-				w = x
-			}
-		}
-	case "rep":
-		c := p.C[0].maxWidth()
-		if c == 0 {
-			return 0
-		}
-		if p.Max < 0 {
-			return 99
-		}
-		w = c * p.Max
-	}
-	if w > 99 {
-		w = 99
-	}
-	return w
-}
-
 // ---------------------------------------------------------------------------------------------
 // generator
 
